@@ -220,10 +220,11 @@ def check_defaults(ctx, F, tag):
     ok = m(Call("bits::words_to_bytes", Call("serialize::Serialize::size_in_elements", Param(0))), b.term_of_local(0))
     ctx.ob("C06.R2.default-size-in-bytes", "serialize::Serialize::size_in_bytes" + tag, loc(b.raw["span"]), ok, "formula", "size_in_bytes = %s" % tstr(b.term_of_local(0)))
     b = F.body("bits::words_to_bytes")
-    ok = m(Bin("Mul", Param(0), Const(8)), b.term_of_local(0))
+    ok = m(Bin("Mul", Param(0), Const(8)), b.term_of_local(0)) or m(Bin("Shl", Param(0), Const(3)), b.term_of_local(0))
     ctx.ob("C06.R2.words-to-bytes", "bits::words_to_bytes" + tag, loc(b.raw["span"]), ok, "formula", "words_to_bytes(n) = %s" % tstr(b.term_of_local(0)))
     b = F.body("serialize::Serializable::elements")
-    ok = m(Bin("Div", Call("std::mem::size_of"), Const(8)), b.term_of_local(0))
+    ok = m(Bin("Div", Call("std::mem::size_of"), Const(8)), b.term_of_local(0)) or m(Bin("Shr", Call("std::mem::size_of"), Const(3)), b.term_of_local(0)) or \
+        m(Call("bits::bytes_to_words", Call("std::mem::size_of")), b.term_of_local(0))
     ctx.ob("C06.R2.elements-formula", "serialize::Serializable::elements" + tag, loc(b.raw["span"]), ok, "formula", "elements() = %s" % tstr(b.term_of_local(0)))
     sz = [i for i in F.impls_of("serialize::Serializable")]
     ctx.count("serializable-impls" + tag, len(sz))
